@@ -1023,6 +1023,10 @@ func (in *Interp) equal(t types.Type, x, y Value) *sym.Term {
 		}
 		return c.Eq(term(x), term(y))
 	case *types.Pointer:
+		if rx, ok := x.(RType); ok {
+			ry, ok2 := y.(RType)
+			return c.Bool(ok2 && rx.Sym == ry.Sym && types.Identical(rx.T, ry.T))
+		}
 		return c.Bool(x.(*Value) == y.(*Value))
 	case *types.Struct:
 		xs, ys := x.(Struct), y.(Struct)
